@@ -750,7 +750,7 @@ func (r *reedSolomon) updateParityShards(matrixRows, oldinputs, newinputs, outpu
 
 	for c := 0; c < r.dataShards; c++ {
 		in := newinputs[c]
-		if in == nil {
+		if len(in) == 0 {
 			continue
 		}
 		oldin := oldinputs[c]
@@ -777,7 +777,7 @@ func (r *reedSolomon) updateParityShardsP(matrixRows, oldinputs, newinputs, outp
 		go func(start, stop int) {
 			for c := 0; c < r.dataShards; c++ {
 				in := newinputs[c]
-				if in == nil {
+				if len(in) == 0 {
 					continue
 				}
 				oldin := oldinputs[c]
